@@ -169,6 +169,28 @@ static LimitItem add_limit(Rng &r, Plan &plan, int which, int level, bool quick)
         plan.flags |= (static_cast<uint64_t>(level) + 1) << 8; // resolved in gen_case (needs a measuring run)
         break;
     }
+    case 12: {
+        // two dimensions at their limit in ONE parameter: n strings of m characters (255 x 255 = 65025 bytes still fit the
+        // 16-bit record length)
+        unsigned N[] = {254, 255, 256, 255}, M[] = {254, 255, 255, 300};
+        std::vector<std::string> v;
+        for (unsigned i = 0; i < N[level]; ++i) { std::string t(M[level], static_cast<char>('a' + i % 26)); t[0] = static_cast<char>('A' + i % 26); t[M[level] - 1] = static_cast<char>('0' + i % 10); v.push_back(t); }
+        plan.steps.push_back(pstep("LIMITS", "TABLE", "", 3, {}, v));
+        it.tag = "dim255.str2d";
+        break;
+    }
+    case 13: {
+        // the record itself: its 16-bit "offset to the next record" holds at most 65535. 255 x 128 integers (65280 bytes) and a
+        // description that brings the record to 65534 / 65535 / 65536 bytes; far beyond: 255 x 129 integers
+        unsigned rows = level == 3 ? 129 : 128;
+        std::vector<int64_t> v;
+        for (unsigned i = 0; i < 255 * rows; ++i) v.push_back(static_cast<int64_t>(i % 30000) - 15000);
+        Step st = pstep("LIMITS", "BULK", std::string(level == 3 ? 0 : 247 + static_cast<unsigned>(level), 'd'), 1, v, {});
+        st.i[3] = 2; st.i.insert(st.i.begin() + 4, {255, static_cast<int64_t>(rows)}); // explicit dimensions {255, rows}
+        plan.steps.push_back(st);
+        it.tag = "record65535";
+        break;
+    }
     case 11: {
         // last frame number 65534 / 65535 (not encodable beyond): reader-side limit, then save and restart
         unsigned last = level == 0 ? 65534 : 65535;
@@ -414,15 +436,16 @@ Case gen_case(const std::string &prop, const std::string &tier, uint64_t verif_s
         add_steering(r, plan, index);
     } else if (gp == "C17") {
         bool quick = !thorough;
-        int nItems = 12;
+        int nItems = 14;
         int which = static_cast<int>(index % static_cast<uint64_t>(nItems));
         int level = static_cast<int>((index / static_cast<uint64_t>(nItems)) % 4);
-        if (quick && which == 8 && (index / 48) % 4 != 0) which = 0; // the 32767-frame objects are slow: fewer of them in quick
+        uint64_t grp = index / (static_cast<uint64_t>(nItems) * 4); // every item at every level once per group
+        if (quick && which == 8 && grp % 4 != 0) which = 0; // the 32767-frame objects are slow: fewer of them in quick
         LimitItem a = add_limit(r, plan, which, level, quick);
         plan.tag = a.tag;
         bool shapeItem = which == 6 || which == 7 || which == 8 || which == 11;
         bool beyond = a.beyond;
-        if ((index / 48) % 2 == 1 && which != 8 && which != 10 && which != 11) { // pairs
+        if (grp % 2 == 1 && which != 8 && which != 10 && which != 11 && which != 12 && which != 13) { // pairs
             int w2 = static_cast<int>(r.below(10));
             if (w2 == 8 || (w2 >= 6 && which >= 6)) w2 = 0;
             if (w2 != which) { LimitItem b = add_limit(r, plan, w2, static_cast<int>(r.below(4)), quick); plan.tag += "&" + b.tag; beyond = beyond || b.beyond; if (w2 >= 6 && w2 <= 8) shapeItem = true; }
@@ -465,12 +488,12 @@ Case gen_case(const std::string &prop, const std::string &tier, uint64_t verif_s
                 pl.steps.push_back(st);
             }
             pl.flags &= 0xff;
-        } else if (!beyond && which != 8 && which != 11 && (index / 96) % 3 == 1) {
+        } else if (!beyond && which != 8 && which != 11 && which != 12 && which != 13 && (grp / 2) % 3 == 1) {
             // the same content, its parameter section tuned to end just before / exactly on / just after a 512-byte block
             // boundary (the one place where "at the limit" meets the block structure): three parameters whose descriptions
             // (<= 255 each) take up the slack, sized after a measuring run
             static const unsigned DELTA[] = {0, 511, 1};
-            unsigned delta = DELTA[(index / 288) % 3];
+            unsigned delta = DELTA[(grp / 6) % 3];
             Plan &pl0 = c.plans[0];
             size_t first = pl0.steps.size();
             for (int q = 0; q < 3; ++q) { Step st; st.op = OP_PARAM; st.s = {"ALIGNMENT", "PAD" + tos(q), ""}; st.i = {1, 0, 0, -1, 1, 7}; pl0.steps.push_back(st); }
